@@ -241,6 +241,7 @@ def run(ctx):
                 texts[:6], [r["text"] for r in m1["rules"]][:6], detail[:400]), {"list": texts})
     for key, lst in sorted(agg.items()):
         ctx.violation(key, "%s  [%d case(s)]" % (lst[0][0][:700], len(lst)), lst[0][1])
+    ctx.require(programs >= 0.1 * len(lists), "only %d of %d lists reached the reference parser" % (programs, len(lists)))
     ctx.extra.update({"lists": len(lists), "programs": programs, "disagreements_checked": disagreements})
 
 
